@@ -456,6 +456,11 @@ func c42CheckPlain(cb ssh.HostKeyCallback, f *c42Files, address string, remote n
 	}()
 	d := ref.Decide(f.lines, hp, key.Marshal())
 	got := cb(address, remote, key)
+	return c42ComparePlain(d, got, f, hp, key)
+}
+
+// c42ComparePlain judges one answer of the callback against the model's decision.
+func c42ComparePlain(d ref.Decision, got error, f *c42Files, hp ref.HostPort, key ssh.PublicKey) (outcome string, err error) {
 	switch {
 	case len(d.Revoked) > 0:
 		var re *knownhosts.RevokedError
@@ -653,6 +658,9 @@ func TestC42(t *testing.T) {
 			t.Fatalf("blob mismatch for %s", name)
 		}
 	}
+	if os.Getenv("VF_RACE") != "" {
+		c.Variant("race-detector")
+	}
 	g := &c42Gen{pool: pool}
 	dir := filepath.Join(runDir(t), "c42")
 	os.MkdirAll(dir, 0o755)
@@ -663,7 +671,7 @@ func TestC42(t *testing.T) {
 	} else {
 		c.Oracle("ssh-keygen -F (OpenSSH) on the class where whole-string and host/port matching coincide")
 	}
-	kgBudget := ev.Scale(80, 500)
+	kgBudget := ev.Scale(50, 500)
 	kgCalls := 0
 	_, f11Listed := ev.IsKnownFinding("F11")
 
@@ -952,6 +960,12 @@ func TestC42(t *testing.T) {
 			}
 		}
 
+		// one callback shared by several goroutines (the callback returned by
+		// New is what a shared ssh.ClientConfig hands to parallel Dials)
+		if rapid.IntRange(0, 19).Draw(rt, "concurrent") == 0 {
+			c42ConcurrentGenerated(rt, c, g, univ, dir)
+		}
+
 		// names hashed by ssh-keygen -H must be matched by the package
 		if keygen != "" && kgCalls < kgBudget && rapid.IntRange(0, 11).Draw(rt, "keygenH") == 0 {
 			kgCalls++
@@ -965,6 +979,9 @@ func TestC42(t *testing.T) {
 	})
 
 	c42Enumerate(t, c, pool, dir, f11Listed)
+	if !t.Failed() {
+		c42ConcurrentDirected(t, c, pool, dir)
+	}
 	if keygen != "" {
 		c.ClassN("keygen:calls", kgCalls)
 	}
